@@ -158,8 +158,20 @@ def render(t):
             spec = "[" + (r(ch[0]) + " " if hv else "") + "[" + " ".join(EXC[x] for x in ts) + "]]"
         return "(except " + spec + "".join(" " + r(c) for c in ch[(1 if hv else 0):]) + ")"
     if k == "with":
-        tgt = "" if ch[0].k == "nov" else r(ch[0]) + " "
-        return "(with [" + tgt + r(ch[1]) + "]" + "".join(" " + r(c) for c in ch[2:]) + ")"
+        # nested withs flagged "merge" are written as one multi-manager form (same meaning)
+        pairs, cur = [], t
+        while True:
+            c = cur.ch
+            pairs.append((r(c[0]), r(c[1])))
+            if cur.x.get("merge") and len(c) == 3 and c[2].k == "with":
+                cur = c[2]
+            else:
+                break
+        if len(pairs) == 1 and cur.ch[0].k == "nov":
+            head = "[" + pairs[0][1] + "]"
+        else:
+            head = "[" + " ".join(a + " " + b for a, b in pairs) + "]"
+        return "(with " + head + "".join(" " + r(c) for c in cur.ch[2:]) + ")"
     if k == "cm":
         return f"(cm {t.a})"
     raise ValueError(k)
